@@ -409,7 +409,7 @@ class MockCA:
         if fault.startswith("acme:"):
             parts = fault.split(":")
             typ = parts[1]
-            nonce = "nononce" not in parts and is_post
+            nonce = "nononce" not in parts and (is_post or "withnonce" in parts)    # (a CA may put a Replay-Nonce on any answer)
             status = 400
             for x in parts[2:]:
                 if x.isdigit():
@@ -426,7 +426,7 @@ class MockCA:
             what = parts[1]
             status = int(parts[2]) if len(parts) > 2 else 500
             hd = {"Content-Type": "text/plain"}
-            if is_post:
+            if is_post or "withnonce" in parts:
                 hd["Replay-Nonce"] = self.new_nonce()
             body = {"nonjson": b"<html>oops</html>", "empty": b"", "jsonarray": b"[1,2]", "jsonstr": b"\"x\""}.get(what, b"oops")
             return status, hd, body
